@@ -64,7 +64,7 @@ func nilConst(v ssa.Value) bool {
 
 func runC04(r *engine.Run) {
 	r.Rule("WHO-collect", "the trie's own store is written only by insertNode (PutNode, DeleteNode) and deleteNode (DeleteNode), and the change collector is fed only there; in insertNode the new node is put under GetHashBytes() of that node, every success return either passes AddChange(old, new) or is reached only when old and new hash are equal, and the replaced node is deleted under its own hash; deleteNode records the change before deleting")
-	r.Rule("ORDER-KEY-save", "UpdateChanges writes all new nodes with exactly one MultiPutNode call outside any loop and before any delete; keys[i] is GetHashBytes() of the very node stored in nodes[i], which is a copy of the change's New node; every DeleteNode is reached only with includeDeletes true; SaveChanges hands its own store and includeDeletes arguments through unchanged")
+	r.Rule("ORDER-KEY-save", "UpdateChanges writes all new nodes with exactly one MultiPutNode call outside any loop and before any delete; keys[i] is GetHashBytes() of the very node stored in nodes[i], which is a copy of the change's New node; every DeleteNode is reached only with includeDeletes true; SaveChanges hands its own store and includeDeletes arguments through unchanged; the save calls no node mutator (SetOrigin, SetVersion, SetValue, PutChild ...) on the copies it writes")
 	r.Rule("WHO-batch", "(*PNodeDB).MultiPutNode reaches RocksDB only through WriteBatch.Put inside the loop over keys (key i with the encoding of node i) and exactly one DB.Write of that batch after the loop; no direct DB.Put/PutCF/Delete")
 	r.Rule("DOM-cancel", "see C05: a re-created node never stays recorded as deleted (it would be dropped from the save or pruned while live)")
 	r.Rule("FRESH-bytes", "see C03: the byte slices handed out by the node accessors (MarshalMsg, Encode, GetHashBytes, GetValueBytes in core/util) are new buffers on every return: nil, make/conversion results, results of calls that produce new buffers, or appends to such; never a field, element, global or map entry. FRESH-node relies on this, and callers of GetNodeValueRaw own (and may overwrite) the slice they get")
@@ -74,6 +74,7 @@ func runC04(r *engine.Run) {
 	r.Rule("ERR-guard", "see C17, applied to the whole package including the node stores and the save path: a failed store write or read is never turned into success")
 	r.Rule("ERR-dropped", "see C17: the error of every store operation (PutNode, MultiPutNode, DeleteNode, GetNode, batch writes) is looked at")
 	r.Rule("DOM-recorded", "in ChangeCollector.AddChange every store into Changes is keyed by the new node's hash and holds a change whose New field was set to the new node, and every return is reached through such a store except the cancel-out (new node equal to the Old of the chain it closes, bytes.Equal tested true)")
+	r.Rule("AGREE-nostamp", "see C03: mergeChanges installs the nodes of the child's change set without re-stamping them (the installer it calls in the replay loop sets no origin/version on the node): a node the child took over from another version keeps the hash the child's root refers to, and the donor store's object is not written")
 	r.Rule("DOM-mergeall", "see C03: mergeChanges replays every change of the child through insertNode (a skipped change is missing from the block's change set and hence from the save)")
 	r.NotDec = append(r.NotDec, "completeness of the change set for every history (needs the map semantics of C01)", "RocksDB's own crash behaviour")
 	whoCollect(r)
@@ -90,9 +91,13 @@ func runC04(r *engine.Run) {
 
 func whoCollect(r *engine.Run) {
 	const rule = "WHO-collect"
-	insertNode := r.Fn(rule, pkgUtil, "MerklePatriciaTrie", "insertNode")
+	stampFn, insertNode := mptStoreFn(r, rule)
 	deleteNode := r.Fn(rule, pkgUtil, "MerklePatriciaTrie", "deleteNode")
-	if insertNode == nil || deleteNode == nil {
+	if stampFn == nil || deleteNode == nil {
+		return
+	}
+	if insertNode == nil {
+		r.Fail(rule, fn(stampFn)+"|PutNode", r.P.Pos(stampFn.Pos()), "insertNode no longer stores the new node")
 		return
 	}
 	// insertForeignNode (sync repair): stores a donor's node under the hash it already has
@@ -299,6 +304,26 @@ func orderKeySave(r *engine.Run) {
 	}
 	mp := mputs[0]
 	r.OK(rule, fn(f)+"|single batch put", r.P.Pos(mp.Pos()), "one MultiPutNode on the target store, outside any loop")
+	// the copies are written as the trie built them: the save applies no mutator to a
+	// node (its key is the hash of the node as copied; the origin is part of the hash)
+	mut := ""
+	engine.Instrs(f, func(in ssa.Instruction) {
+		c, ok := in.(*ssa.Call)
+		if !ok {
+			return
+		}
+		name := ""
+		if c.Call.IsInvoke() {
+			name = c.Call.Method.Name()
+		} else if sc := c.Call.StaticCallee(); sc != nil && sc.Signature.Recv() != nil {
+			name = sc.Name()
+		}
+		if nodeMutators[name] {
+			mut = name + " at " + r.P.Pos(c.Pos())
+		}
+	})
+	r.Check(mut == "", rule, fn(f)+"|no mutation of the copies", r.P.Pos(mp.Pos()), "no node mutator is called in the save",
+		"the save calls a node mutator ("+mut+") on the nodes it writes: the key each node goes under was computed from the node as copied, and origin, version, value and children are all part of the hash, so the node sits in the store under a key that is not its hash and cannot be read back under the saved root")
 	keys, nodes := mp.Call.Args[0], mp.Call.Args[1]
 	// keys[i] = GetHashBytes(nodes[i]); nodes[i] = CloneNode(change.New)
 	var keyStore, nodeStore *ssa.Store
